@@ -116,6 +116,10 @@ def gen_max(rng, small=True, w8_only=True, with_opts=True):
         if rng.random() < 0.08:
             w = 8 * rng.choice((342, 512, 1024, rng.randint(300, 1400)))
             rows = rng.choice((1, 2, 3, 5))
+        elif rng.random() < 0.025:
+            # length field at and beyond the 15-bit / 16-bit marks (a whole 32-64 KiB SAVEM)
+            w = rng.choice((256, 512, 1024))
+            rows = (rng.choice((32760, 32768, 40000, 65528)) * 8) // w
         if not w8_only and rng.random() < 0.35:
             w = max(1, w - rng.randint(1, 7))
         s = rng.choice((0, 0, 0, 7, rng.randint(0, 40)))
@@ -179,6 +183,9 @@ def gen_art(rng, small=True, with_opts=True):
 # ------------------------------------------------------------------------------ PIX
 def gen_pix(rng, small=True):
     k = rng.choice((1, 2, 3, 4, 8, 16)) if small else rng.choice((64, 32, rng.randint(1, 64)))
+    if rng.random() < 0.15:
+        # sides at and around powers of two and the 64 KiB mark
+        k = rng.choice((127, 128, 128, 129, 181, 64, 256))
     n = 2 * k * k
     data = _pixels(rng, n)
     smap = [(y * k, "row") for y in range(2 * k)]
